@@ -236,9 +236,34 @@ def _returns_to_assign(stmts, target: str | None):
         if isinstance(st, (ast.FunctionDef, ast.AsyncFunctionDef, ast.ClassDef)) or not _has_return(st):
             out.append(st)
             continue
+        rest = stmts[i + 1:]
+        if isinstance(st, (ast.With, ast.AsyncWith, ast.Try)) and not rest:
+            # the last statement of the helper: leaving it by `return e` == binding e and running off its end (the exit of
+            # the `with` / the `finally` run in both cases); not when an `else:` clause would then run after the try body
+            new = _copy.copy(st)
+            blocks = [("body", st.body)]
+            if isinstance(st, ast.Try):
+                if any(_has_return(x) for x in st.finalbody) or (st.orelse and any(_has_return(x) for x in st.body)):
+                    return None
+                blocks.append(("orelse", st.orelse))
+                hs = []
+                for h in st.handlers:
+                    hb = _returns_to_assign(h.body, target)
+                    if hb is None:
+                        return None
+                    h2 = _copy.copy(h)
+                    h2.body = hb or [ast.copy_location(ast.Pass(), h)]
+                    hs.append(h2)
+                new.handlers = hs
+            for field, blk in blocks:
+                nb = _returns_to_assign(blk, target)
+                if nb is None:
+                    return None
+                setattr(new, field, nb if (nb or field == "orelse") else [ast.copy_location(ast.Pass(), st)])
+            out.append(new)
+            return out
         if not isinstance(st, ast.If):
             return None
-        rest = stmts[i + 1:]
         b_ends, o_ends = _ends(st.body), _ends(st.orelse)
         if (b_ends and o_ends) or not rest:
             body, orelse = _returns_to_assign(st.body, target), _returns_to_assign(st.orelse, target)
